@@ -21,6 +21,10 @@ def run(ctx):
     hs = [H('VerifC03History', 'pkg/northbound/gnmi/v2', f, unwind=16,
             opts={'params': {'sets': n, 'onlycombined': mo}, 'cuts': {BUILDER_GET: 'atomix-map-by-name', PROTO_CODEC: 'noop'}, 'maporder': mo},
             timeout_ms=300000 if ctx.tier == 'quick' else 1800000, replay_attempts=16) for n in sets for mo in (0, 1)]
+    # the queried path split between the request prefix and the path (one Set in the history)
+    hs.append(H('VerifC03History', 'pkg/northbound/gnmi/v2', f, unwind=16,
+                opts={'params': {'sets': 1, 'onlycombined': 0, 'getsplit': 1}, 'cuts': {BUILDER_GET: 'atomix-map-by-name', PROTO_CODEC: 'noop'}, 'maporder': 0},
+                timeout_ms=300000, replay_attempts=16))
     driver.check_harnesses(ctx, hs)
     driver.write_evidence(ctx, 'model_checking', 'data path Set -> commit -> real configuration store -> Get vs reference gNMI state machine',
                           {'sets': sets}, [])
